@@ -76,7 +76,7 @@ func (addr4Engine) Run(ctx *fw.Ctx, cs any) {
 	}
 	ifIdx := map[string]int{"ve0": ve0.Index, "vf0": vf0.Index}
 	peerOf := map[string]string{"ve0": "ve1", "vf0": "vf1"}
-	job := &ChainJob{HasV4: true, Sniff: []string{"ve1", "vf1"}}
+	job := &ChainJob{HasV4: true, Sniff: []string{"ve1", "vf1"}, FrameWaitUs: 30000}
 	if c.SetYi {
 		job.V4 = append(job.V4, PlugConf{"syn", []string{"setyi", "5"}})
 	}
